@@ -168,6 +168,13 @@ func genCustodian(r *Rand, i int, tier string) []string {
 			for a, b := 0, n-1; a < b; a, b = a+1, b-1 {
 				es[a], es[b] = es[b], es[a]
 			}
+		case 3: // sorted, but by another key of the entry
+			key := Pick(r, []func(e *c34Entry) []byte{
+				func(e *c34Entry) []byte { return e.cust.PublicViewKey[:] },
+				func(e *c34Entry) []byte { return e.payee.PublicSpendKey[:] },
+				func(e *c34Entry) []byte { return e.extra[129:161] },
+			})
+			sort.Slice(es, func(i, j int) bool { return bytes.Compare(key(es[i]), key(es[j])) < 0 })
 		}
 	}
 
